@@ -70,7 +70,9 @@ S_GMACRO = (
     '<span metal:use-macro="template.macros[\'m\']">x</span>${y()}<b>${g}</b>'
     '<i tal:define="global h items[0]" tal:content="h">x</i>'
     '<span metal:use-macro="template.macros[\'m\']">x</span><u>${h}-${g}</u></div>')
-STRINGS = {"gmacro": S_GMACRO, "imp1": S_IMP1, "imp2": S_IMP2, "global": S_GLOBAL, "macro": S_MACRO, "code": S_CODE,
+S_NS = ('<br xmlns:tal="urn:example:my-own-vocabulary" tal:role="x" />'
+        '<p xmlns:q="urn:q" q:a="1">${name}${y()}</p>')
+STRINGS = {"ns": S_NS, "gmacro": S_GMACRO, "imp1": S_IMP1, "imp2": S_IMP2, "global": S_GLOBAL, "macro": S_MACRO, "code": S_CODE,
            "i18n": S_I18N, "nested": S_NESTED}
 
 F_LIB = (
